@@ -741,8 +741,10 @@ structure FnSpec where
   retTy : String
   /-- numpy, list-valued body, debug>=1: the dtype names `t.__name__` of the items -/
   retItems : Option (List String) := none
-  /-- exception raised while the signature is printed (unknown argument / result type) -/
-  sigErr : Option String := none
+  /-- exception raised while the arguments are typed (unknown argument type) -/
+  argErr : Option String := none
+  /-- exception raised while the result is typed -/
+  retErr : Option String := none
 
 structure Out where
   lines : List String
@@ -763,13 +765,13 @@ def printFn (t : Target) (tb : Tables) (g : Graph Lab) (fuel : Nat) (need : Need
         Stmt.assign (argRef g a) { kind := "cast" } (.op { kind := "cast", likeTy := a.ty } [.var a.name])
     | _ => []
   let s0 : St Lab := { defined := refs.reverse, stmts := casts, err := none }
-  -- python prints the body first and the signature afterwards; an exception in the signature of
-  -- numpy / cpp comes first
+  -- python prints the body first, then types the result, then the arguments; numpy / cpp type the
+  -- arguments first, print the body and type the result last
   let s0 := match t with
     | .python => s0
-    | _ => s0.fail fn.sigErr
+    | _ => s0.fail fn.argErr
   let r := pr g need.need dbg fuel s0 fn.body
-  let s1 := r.2.fail fn.sigErr
+  let s1 := (r.2.fail fn.retErr).fail fn.argErr
   -- python: `self.tostring(a)` on a defined reference asserts need_ref
   let s1 := match t with
     | .python => if refs.all need.need then s1 else s1.fail (some "AssertionError")
